@@ -5,5 +5,5 @@ CONSTANTS
   FaultDirs = {"c2s"}
   Deltas = {1, 128}
 SPECIFICATION Spec
-INVARIANTS TypeOK SessionAgreement DeliveredIsPrefixOfSent NothingFromHitFrameOn AllUndamagedDelivered
+INVARIANTS TypeOK NoFaultNoReject SessionAgreement DeliveredIsPrefixOfSent NothingFromHitFrameOn AllUndamagedDelivered
 CHECK_DEADLOCK FALSE
